@@ -8,7 +8,8 @@ MODULES = ["Prelude", "C02_Model", "C02_Spec", "C02_Check", "C02_HistModel", "C0
 PROPS_MODULE = "C02_Properties"
 THEOREMS = ["C02_identity_exact", "C02_denied_not_forwarded", "C02_malformed_not_forwarded",
             "C02_unnamed_not_forwarded", "C02_no_client_identity_header_survives", "C02_escape_roundtrip",
-            "C02_model_meets_spec", "C02_decision_of_current_cluster"]
+            "C02_model_meets_spec", "C02_decision_of_current_cluster",
+            "C02_identity_survives_transport_reset"]
 EVAL = "C02_HistCheck.eval_any"
 CLAUSES = ["agree", "identity", "denied", "malformed", "no_client_header", "hist_forward_justified",
            "hist_denied_not_forwarded"]
@@ -26,6 +27,9 @@ TRUSTED_BASE = [
     "(apimachinery tryUpgrade / DialForUpgrade / http.Request.Write), the tunnel after 101 is not",
 ]
 ASSUMPTIONS = [
+    "clusters of the rig are real ClusterInfo / EndpointInfo objects shared by the cases of a run; a case may call "
+    "EndpointInfo.ResetTransport() on the target cluster's endpoints before its request, so most requests of a run are "
+    "forwarded through a rebuilt ProxyTransport (the upgrade transport is not rebuilt by ResetTransport)",
     "histories: the target cluster of a request is the incarnation that owns its Host NOW (server names may move between "
     "live clusters); a cached decision counts only if this incarnation gave it within the TTL; the authorizer's clean-up "
     "goroutine is given time to run after a deletion (the rig waits, bounded)",
@@ -288,6 +292,12 @@ def corpus():
                        reply=(403, [(b"Content-Type", b"text/plain")], (7, 1)), headers=up, tag="upgrade-refused-by-upstream"))
     c.append(L.mk_case(target=b"/api/v1/namespaces/n/pods/p/exec", reply=(101, [], (5, 1)), headers=up,
                        user=ident(b"", [], []), tag="upgrade-empty-name"))
+    # witness of seeded change C02-g: after EndpointInfo.ResetTransport() (what GatewayHealthCheck does after repeated
+    # hanging probes) requests must still be forwarded through the impersonating round tripper
+    c.append(dict(L.mk_case(host="plain.test", user=ident(b"alice", [b"dev"], [(b"scopes", [b"view"])]), tag="after-reset-1"), resets=1))
+    c.append(dict(L.mk_case(host="plain.test", headers=[(b"Impersonate-User", b"bob"), (b"Impersonate-Group", b"ops")],
+                            tag="after-reset-2-imp"), resets=2))
+    c.append(dict(L.mk_case(host="ok.test", headers=[(b"Authorization", b"Bearer client")], tag="after-reset-tls"), resets=1))
     # rejected by net/http itself
     c.append(L.mk_case(headers=[(b"Impersonate-Extra-a/b", b"1"), (b"Impersonate-User", b"bob")], tag="bad-name"))
     return c
@@ -388,7 +398,9 @@ def gen_case(rng):
                          headers=hs, user=user, deny=deny, tag="gen-upgrade",
                          reply=(101, [], (rng.randint(0, 40), rng.randint(1, 99))) if rng.chance(3, 4)
                          else (rng.choice([400, 403, 404]), [(b"Content-Type", b"text/plain")], (7, 1)))
-    return L.mk_case(host=rng.choice(["ok.test", "ok.test", "plain.test"]), headers=hs, user=user, deny=deny, tag="gen")
+    case = L.mk_case(host=rng.choice(["ok.test", "ok.test", "plain.test"]), headers=hs, user=user, deny=deny, tag="gen")
+    case["resets"] = rng.choice([0, 0, 0, 0, 0, 0, 0, 1, 1, 2])
+    return case
 
 
 def generate(rng, tier, scale=1):
@@ -405,15 +417,15 @@ def coq_case(case, obs):
 
 def coq_single(case, obs):
     if L.panic_obs(obs):
-        return ("(mkCase %s %s %s %s %s true [] (mkObs (-1) []))" %
+        return ("(mkCase %s %s %s %s %s true [] 0 (mkObs (-1) []))" %
                 (cstr(L.TOKEN), cstr(L.CLIENT_IP), L.coq_kv_headers(case["headers"]), L.coq_identity(case["user"]),
                  L.coq_items(case["deny"])))
     reached = bool(obs.get("reached")) and obs.get("gw_in") is not None
     h_in = L.coq_headers(obs["gw_in"]["headers"]) if reached else "[]"
     ups = clist([L.coq_headers(u["headers"]) for u in (obs.get("upstream") or [])])
-    return ("(mkCase %s %s %s %s %s %s %s (mkObs %s %s))" %
+    return ("(mkCase %s %s %s %s %s %s %s %d (mkObs %s %s))" %
             (cstr(L.TOKEN), cstr(L.CLIENT_IP), h_in, L.coq_identity(case["user"]), L.coq_items(case["deny"]),
-             cbool(reached), L.coq_items(obs.get("authz_calls")), cZ(obs.get("status", -1)), ups))
+             cbool(reached), L.coq_items(obs.get("authz_calls")), int(case.get("resets", 0)), cZ(obs.get("status", -1)), ups))
 
 
 def _families(case):
@@ -485,6 +497,8 @@ def stats(case, obs):
     labs.append("identity:groups=%d,extra=%d" % (len(u["groups"]), len(u["extra"])))
     if case["deny"]:
         labs.append("deny-script:%d" % len(case["deny"]))
+    if case.get("resets"):
+        labs.append("transport-resets:%d" % case["resets"])
     return labs
 
 
